@@ -229,7 +229,8 @@ MARKUP = {
     'list_cmt': '- a // c\n- b /* d */\n', 'list_lc_own_line': '- a\n  // c\n  b\n', 'term_lc': '/ t: a\n  // c\n  b\n', 'list_code': '- #f(1)\n- #{ 1 }\n- #[x]\n',
     'raw_inline': 'a `b  c` d\n', 'raw_block': '```rust\nfn main() {\n    x  \n}\n```\n', 'raw_block_indent': '- ```py\n  a\n    b\n  ```\n', 'raw_slashes': '```\n// not a comment\n```\n',
     'raw_one_line': '```typ a b ```\n', 'raw_lang_sp': '``` x```\n', 'raw_trail_blank': '```\nline   \n  \n```\n',
-    'label_ref': 'text <lbl> @lbl @lbl[p. 1]\n', 'link': 'https://example.com/a_b text\n', 'escape': '\\# \\* \\_ \\\\ \\u{1f600}\n', 'shorthand': "a -- b --- c ... ~ -?\n",
+    'label_ref': 'text <lbl> @lbl @lbl[p. 1]\n', 'ref_supplement_code': '@thm[Theorem #n] and @thm[Thm. #n;bis] and @thm[the theorem /* c */ above] @eq[#f(1) x]\n',
+    'unicode_trailing': 'text\u3000\nnext\u00a0\n= Heading\u2003\n- item\u2002\n// c\u3000\n#let x = 1\u00a0\n', 'link': 'https://example.com/a_b text\n', 'escape': '\\# \\* \\_ \\\\ \\u{1f600}\n', 'shorthand': "a -- b --- c ... ~ -?\n",
     'smartquote': '"a" \'b\'\n', 'linebreak': 'a \\\nb \\ c\n', 'linebreak_end': 'a \\\n', 'parbreak_many': 'a\n\n\n\nb\n', 'trailing_ws': 'a   \nb\t\n',
     'cmt_lines': '// one\n// two\ntext // three\n/* four */ text /* five */\n', 'cmt_block_multi': '/* a\n   b\n c */\ntext\n', 'cmt_nested': '/* a /* b */ c */ x\n',
     'cmt_only': '// c', 'cmt_eof': 'text // c', 'cmt_between_paras': 'a\n\n// c\n\nb\n', 'cmt_indent': '  // c\n  text\n',
